@@ -2,6 +2,7 @@ import Model.Config
 import Model.ConfigGenesis
 import Proofs.C18
 import Proofs.C18Text
+import Proofs.C18Civil
 import Gen.C18
 
 /-! # C18 — every configuration option obeys flag > file > default and survives save/load;
@@ -651,7 +652,8 @@ address (any bytes or nil) and the zone offset: if `Save` accepts `g` (`encode g
 bytes `Save` writes parse to exactly `j`.  The only hypothesis: the wall-clock fields of the time
 are those of a real `time.Time` (`WallClockOK`: month 1..12, day 1..31, hour < 24, minute < 60,
 second < 60, nanosecond < 10⁹).  `GoTime` is a record of free numbers; no `time.Time` Go can hold
-is excluded, and the hypothesis is NECESSARY: `textRoundTrips_iff`. -/
+is excluded (`ofUnix_wallClockOK`: every instant in every zone), and the hypothesis is NECESSARY:
+`textRoundTrips_iff`. -/
 theorem textRoundTrips_of_encodable (g : Genesis) (hw : WallClockOK g.time = true) : TextRoundTrips g = true :=
   textRoundTrips_of_wallClock g hw
 
@@ -766,21 +768,27 @@ example : saveThenLoad writeTrunc [(1, str "old")] 1 richG = .ok (.ok (normLoc r
 example : saveThenLoad writeTrunc [(1, str "old")] 1 richG = .ok (.ok (normLoc richG)) := by decide +kernel
 example : TextRoundTrips richG = true := textRoundTrips_of_encodable richG (by decide +kernel)
 
-/-- the records the driver builds from an instant (`GoTime.ofUnix`, what `time.Unix(s, ns).In(zone)`
-holds): time of day and nanoseconds are in range for EVERY instant and zone … -/
-theorem ofUnix_time_of_day (u : Int) (ns : Nat) (off : Int) (loc : String) :
-    (GoTime.ofUnix u ns off loc).hour < 24 ∧ (GoTime.ofUnix u ns off loc).min < 60 ∧
-    (GoTime.ofUnix u ns off loc).sec < 60 ∧ (GoTime.ofUnix u ns off loc).nsec = ns := by
-  unfold GoTime.ofUnix
-  simp only []
-  refine ⟨?_, ?_, ?_, trivial⟩ <;> omega
-/-- … month 1..12 / day 1..31 of `civilFromDays` is evaluated here on the corners (zero time, year 0,
-last second of 9999, 29 February, +14 h), not proved for every day number (see notes/C18.md) -/
+/-- **No `time.Time` is excluded by `WallClockOK`**: the record of EVERY instant in EVERY zone
+(`GoTime.ofUnix` = what `time.Unix(s, ns).In(zone)` holds; it is how the driver makes the record
+from the op's Unix seconds) has month 1..12, day 1..31 (`Proofs/C18Civil.lean`: the civil-from-days
+algorithm, all day numbers), hour < 24, minute < 60, second < 60 -/
+theorem ofUnix_wallClockOK (u : Int) (ns : Nat) (off : Int) (loc : String) (hns : ns < 1000000000) :
+    WallClockOK (GoTime.ofUnix u ns off loc) = true :=
+  Civil.ofUnix_wallClockOK u ns off loc hns
+
+/-- … so, for a genesis whose time is an instant in a zone, save → load needs no hypothesis on the
+record at all: `GenesisEncodable` (year, whole-minute zone, UTF-8 chain id) and `Validate` only -/
+theorem genesis_load_save_ofUnix (d : Disk) (p : Nat) (cid : Bytes) (ih : Nat) (prop : Option Bytes)
+    (u : Int) (ns : Nat) (off : Int) (loc : String) (hns : ns < 1000000000)
+    (he : GenesisEncodable ⟨cid, GoTime.ofUnix u ns off loc, ih, prop⟩ = true)
+    (hv : validate ⟨cid, GoTime.ofUnix u ns off loc, ih, prop⟩ = none) :
+    saveThenLoad writeTrunc d p ⟨cid, GoTime.ofUnix u ns off loc, ih, prop⟩ =
+      .ok (.ok (normLoc ⟨cid, GoTime.ofUnix u ns off loc, ih, prop⟩)) :=
+  genesis_load_save d p _ he (ofUnix_wallClockOK u ns off loc hns) hv
+
 example : WallClockOK (GoTime.ofUnix zeroUnix 0 0 "") = true ∧
     WallClockOK (GoTime.ofUnix 1709251199 999999999 (-12600) "x") = true ∧
-    WallClockOK (GoTime.ofUnix 253402300799 1 0 "") = true ∧
-    WallClockOK (GoTime.ofUnix (-62167219200) 0 0 "") = true ∧
-    WallClockOK (GoTime.ofUnix 951782400 0 50400 "") = true := by decide +kernel
+    WallClockOK (GoTime.ofUnix 253402300799 1 0 "") = true := by decide +kernel
 
 /-- loading never yields an invalid genesis, whatever bytes the path holds -/
 theorem genesis_loaded_is_valid (bs : Bytes) (g : Genesis) (h : loadBytes bs = .ok g) : validate g = none := by
